@@ -1,30 +1,41 @@
 ---------------------------- MODULE SerialPause ----------------------------
 (* C05 (serial engine) — the run loop of timing/serialengine.go against a goroutine
-   calling Pause()/Continue(), one action per step that another goroutine can
-   interleave with:
-     loop:   chk (noMoreEvent) -> load (atomic load of `paused`) -> [wait (cond.Wait
-             until paused = 0)] -> hstart (handler begins) -> hend -> chk
-     pauser: pstore (paused := 1 under pauseMu; Pause returns) -> cstore (paused := 0,
-             Broadcast; Continue returns)
-   Quiescent and NoStartWhilePaused are what the statement of C05 demands; TLC shows
-   both fail for this design (hypothesis W11), which the harness then reproduces on
-   the real engine with gated handlers.                                          *)
+   calling Pause()/Continue(), one action per step another goroutine can interleave with:
+     loop:   chk (noMoreEvent) -> load (lock-free read of `paused`) -> [wait (cond.Wait
+             until paused = 0)] -> dlock (take dispatchMu) -> recheck (read `paused`
+             again under the lock; back off if raised) -> hstart -> hend -> dunlock -> chk
+     pauser: pstore (paused := 1) -> pwait (take and release dispatchMu; Pause returns)
+             -> cstore (paused := 0, Broadcast; Continue returns)
+   DispatchLock = FALSE is the design before the repair (W11): no dispatchMu, Pause
+   returns right after raising the flag — TLC refutes Quiescent and NoStartWhilePaused
+   for it (negative control, and the hypothesis that was reproduced on the real engine
+   with gated handlers).  DispatchLock = TRUE is the current design.              *)
 EXTENDS Naturals, TLC
-CONSTANTS NEvents, Pauses
-VARIABLES lpc, left, flag, ppc, running, pleft
-vars == <<lpc, left, flag, ppc, running, pleft>>
-Init == lpc = "chk" /\ left = NEvents /\ flag = 0 /\ ppc = "idle" /\ running = FALSE /\ pleft = Pauses
-Chk    == lpc = "chk" /\ lpc' = (IF left = 0 THEN "done" ELSE "load") /\ UNCHANGED <<left, flag, ppc, running, pleft>>
-Load   == lpc = "load" /\ lpc' = (IF flag = 1 THEN "wait" ELSE "hstart") /\ UNCHANGED <<left, flag, ppc, running, pleft>>
-WaitR  == lpc = "wait" /\ flag = 0 /\ lpc' = "hstart" /\ UNCHANGED <<left, flag, ppc, running, pleft>>
-HStart == lpc = "hstart" /\ running' = TRUE /\ lpc' = "hend" /\ UNCHANGED <<left, flag, ppc, pleft>>
-HEnd   == lpc = "hend" /\ running' = FALSE /\ left' = left - 1 /\ lpc' = "chk" /\ UNCHANGED <<flag, ppc, pleft>>
-Pause    == ppc = "idle" /\ pleft > 0 /\ flag' = 1 /\ ppc' = "paused" /\ pleft' = pleft - 1 /\ UNCHANGED <<lpc, left, running>>
-Continue == ppc = "paused" /\ flag' = 0 /\ ppc' = "idle" /\ UNCHANGED <<lpc, left, running, pleft>>
-Next == Chk \/ Load \/ WaitR \/ HStart \/ HEnd \/ Pause \/ Continue \/ (lpc = "done" /\ UNCHANGED vars)
-Spec == Init /\ [][Next]_vars /\ WF_vars(Chk \/ Load \/ WaitR \/ HStart \/ HEnd) /\ WF_vars(Continue)
+CONSTANTS NEvents, Pauses, DispatchLock
+VARIABLES lpc, left, flag, ppc, running, pleft, dmu
+vars == <<lpc, left, flag, ppc, running, pleft, dmu>>
+Init == lpc = "chk" /\ left = NEvents /\ flag = 0 /\ ppc = "idle" /\ running = FALSE /\ pleft = Pauses /\ dmu = "free"
+Chk    == lpc = "chk" /\ lpc' = (IF left = 0 THEN "done" ELSE "load") /\ UNCHANGED <<left, flag, ppc, running, pleft, dmu>>
+Load   == lpc = "load" /\ lpc' = (IF flag = 1 THEN "wait" ELSE IF DispatchLock THEN "dlock" ELSE "hstart")
+          /\ UNCHANGED <<left, flag, ppc, running, pleft, dmu>>
+WaitR  == lpc = "wait" /\ flag = 0 /\ lpc' = (IF DispatchLock THEN "dlock" ELSE "hstart")
+          /\ UNCHANGED <<left, flag, ppc, running, pleft, dmu>>
+DLock  == lpc = "dlock" /\ dmu = "free" /\ dmu' = "loop" /\ lpc' = "recheck" /\ UNCHANGED <<left, flag, ppc, running, pleft>>
+Recheck == lpc = "recheck" /\ (IF flag = 1 THEN lpc' = "chk" /\ dmu' = "free" ELSE lpc' = "hstart" /\ UNCHANGED dmu)
+           /\ UNCHANGED <<left, flag, ppc, running, pleft>>
+HStart == lpc = "hstart" /\ running' = TRUE /\ lpc' = "hend" /\ UNCHANGED <<left, flag, ppc, pleft, dmu>>
+HEnd   == lpc = "hend" /\ running' = FALSE /\ left' = left - 1 /\ lpc' = "chk"
+          /\ dmu' = (IF DispatchLock THEN "free" ELSE dmu) /\ UNCHANGED <<flag, ppc, pleft>>
+PStore   == ppc = "idle" /\ pleft > 0 /\ flag' = 1 /\ pleft' = pleft - 1
+            /\ ppc' = (IF DispatchLock THEN "pwait" ELSE "paused") /\ UNCHANGED <<lpc, left, running, dmu>>
+PWait    == ppc = "pwait" /\ dmu = "free" /\ ppc' = "paused" /\ UNCHANGED <<lpc, left, flag, running, pleft, dmu>>
+Continue == ppc = "paused" /\ flag' = 0 /\ ppc' = "idle" /\ UNCHANGED <<lpc, left, running, pleft, dmu>>
+Next == Chk \/ Load \/ WaitR \/ DLock \/ Recheck \/ HStart \/ HEnd \/ PStore \/ PWait \/ Continue
+        \/ (lpc = "done" /\ ppc # "pwait" /\ UNCHANGED vars)
+Spec == Init /\ [][Next]_vars /\ WF_vars(Chk \/ Load \/ WaitR \/ DLock \/ Recheck \/ HStart \/ HEnd)
+        /\ WF_vars(Continue) /\ WF_vars(PWait)
 Quiescent == ppc = "paused" => ~running
 NoStartWhilePaused == [][ppc = "paused" => ~(lpc = "hstart" /\ lpc' = "hend")]_vars
-(* what the design does guarantee: at most one more dispatch after Pause returned *)
 EventuallyDone == <>(lpc = "done")
+PauseReturns == (ppc = "pwait") ~> (ppc = "paused")
 =============================================================================
